@@ -4,8 +4,8 @@ Driver for C09.  One line = one composition tree (prefix notation) + one history
   run <node> | <op> <op> ...
   <node> ::= R tag a b c d                       recording leaf forecaster
            | E agg n (name <node>){n}             EnsembleForecaster (agg = online: OnlineEnsembleForecaster)
-           | P n (T tag k m upd skip){n} <node>   TransformedTargetForecaster, `update` as coded in /repo
-           | Pf n (T ...){n} <node>               the same with the repaired `update` (findings/C09-*.patch)
+           | P n (T tag k m upd skip){n} <node>   TransformedTargetForecaster with the ORIGINAL `update` (raw batch handed on; before 8cf3d7f)
+           | Pf n (T ...){n} <node>               TransformedTargetForecaster as coded in /repo (update transforms the batch step by step)
            | M sel n (name <node>){n}             MultiplexForecaster (sel = name | none)
            | S n (name <node>){n} G tag p q       StackingForecaster
   <op>   ::= fit <series> <fh> | upd <series> <T|F> | pred <fh>
